@@ -242,6 +242,7 @@ var l2MaccPerms = map[string][]string{
 const LazyModule = "reserve"
 
 func NewL2(db dbm.DB, gen *L2Genesis, opts L2Options, plans []PlanReg) *L2 {
+	db = wrapDB(db) // see safedb.go
 	enc := MakeEncoding()
 	n := &L2{DB: db, Enc: enc, Fault: &FaultState{Record: true}, secpVals: opts.SecpVals}
 	bopts := []func(*baseapp.BaseApp){baseapp.SetChainID(L2ChainID), baseapp.SetOptimisticExecution()}
